@@ -379,7 +379,7 @@ UNIT = Unit(
 }"""},
            before=[
                ("if chars.peek() == Some(&'-') {\n            // multi-line comment", r"""proof { lemma_empty(input, col0); lemma_step(input, 0, col0); assert(input.skip(0) =~= input); assert(input.skip(0).drop_first() =~= input.skip(1)); }"""),
-               ("if end_found { CommentMulti } else { Error }", r"""proof { let k = input.len() - pk(&chars).len(); assert(self.scanned(old(self), input, k)); }"""),
+               ("if end_found {", r"""proof { let k = input.len() - pk(&chars).len(); assert(self.scanned(old(self), input, k)); }"""),
                ("CommentSingle\n", r"""proof {
     let k = input.len() - pk(&chars).len();
     assert forall|i: int| 1 <= i < k implies input[i] != '\n' && input[i] != '\r' by {
@@ -599,7 +599,8 @@ proof {
         Fn(F, "impl<'a> TokenLexer<'a> :: fn consume_ignored", props=P,
            subst=[("c.len_utf8()", "len_utf8(c)", 1)],
            after_open="let ghost input = pk(&chars); let ghost col0 = self.span.end.column as int;",
-           before=[("self.advance_line_utf8(char_bytes, char_count);", r"""proof {
+           # anchors are kept short (call prefix only) so that a change of the ARGUMENTS is judged, not lost
+           before=[("self.advance_line_utf8(", r"""proof {
     let k = input.len() - pk(&chars).len();
     assert forall|i: int| 1 <= i < k implies input[i] != '\n' && input[i] != '\r' by {
         assert(input.skip(1)[i - 1] == input[i]);
